@@ -210,6 +210,9 @@ func Extract(r pdf.Getter, obj pdf.Object) (*Labels, error) {
 		}
 
 		s, err := c.Name(dict["S"])
+		if pdf.IsReadError(err) {
+			return nil, err
+		}
 		if err == nil && s != "" {
 			if style, ok := pdfNameToStyle[s]; ok {
 				lr.Style = style
@@ -217,11 +220,17 @@ func Extract(r pdf.Getter, obj pdf.Object) (*Labels, error) {
 		}
 
 		p, err := c.TextString(dict["P"])
+		if pdf.IsReadError(err) {
+			return nil, err
+		}
 		if err == nil {
 			lr.Prefix = string(p)
 		}
 
 		st, err := c.Integer(dict["St"])
+		if pdf.IsReadError(err) {
+			return nil, err
+		}
 		if err == nil && st >= 1 {
 			lr.Start = int(min(st, limits.MaxPageLabelStart))
 		}
